@@ -19,7 +19,7 @@ func init() {
 	ev.Register(&ev.Spec{
 		ID: "C15", Level: "fault_enumeration",
 		Rule:    "for each base sequence (hand-written ones covering attach-with-path, multi-step walks, fid replacement so that Close runs inside a request, create-rebinding, rename with live fids in the renamed subtree so that Renamed runs, unlink/remove, xattr walk/create/clunk, plus PRNG sequences) a fault-free run counts the backend calls c, then the sequence is re-run c times with the fault at call index 1..c - exhaustive over indices - once as an error (errno kinds rotate: linux.Errno, syscall.Errno, os.Err* sentinels, %w-wrapped, *fs.PathError, errors.Join, opaque) and once as a panic. The faulted request must be answered Rlerror (the error's errno / EFAULT), the session model keeps judging every later reply after an error, the fid table is probed after every step (EBADF iff unbound), a second connection must still be served, and after an error every handle is closed exactly once when the connections end. Non-trivial: the fault fired inside a request; distinct by (sequence, fault index, kind).",
-		Assume:  []string{"faults are applied before any backend mutation, so a faulted call has no backend-side effect", "after a panic: every request gets a reply on this and another connection, no later request is answered EFAULT (the one fault has fired), every bound fid can still be cloned and Tremove unbinds it; nothing about File bookkeeping", "faults in Close during connection teardown are not injected (an unrecovered panic there would end the process; outside 'any request')"},
+		Assume:  []string{"faults are applied before any backend mutation, so a faulted call has no backend-side effect", "after a panic: every request gets a reply on this and another connection, no later request is answered EFAULT (the one fault has fired), every bound fid can still be cloned and Tremove unbinds it, a Tclunk / Tremove in which the panic fired has unbound its fid, and when the connections have ended every File has been closed exactly once and none was used after its Close", "faults in Close during connection teardown are not injected (an unrecovered panic there would end the process; outside 'any request')"},
 		Shards:  shards(8, 16),
 		Timeout: timeout(8*time.Minute, 60*time.Minute),
 		Run:     runC15,
@@ -267,8 +267,15 @@ func c15Run(c *ev.Ctx, seq []c15step, si int, faultAt int, ferr error, kind stri
 		for _, v := range fsx.LifecycleViolations(true) {
 			c.Violation("C15:lifecycle-after-backend-error:"+v, map[string]any{"fault_at": faultAt, "kind": kind, "fault_in": firedMethod, "trace": st.tail()})
 		}
+	} else if fired {
+		// after a panic: C15 itself demands service only, but C05 is universal
+		// ("every File ... closed exactly once"): a panic in one backend call
+		// does not entitle the server to leave other Files open for good, or
+		// to use one after its Close
+		for _, v := range fsx.LifecycleViolations(true) {
+			c.Violation("C15:lifecycle-after-backend-panic-in-"+firedMethod+":"+v, map[string]any{"fault_at": faultAt, "fault_in": firedMethod, "trace": st.tail()})
+		}
 	}
-	// after a panic the statement demands service, not bookkeeping: nothing more is asserted
 	return calls
 }
 
